@@ -156,7 +156,7 @@ def run(ck):
             kernel += [{"op": "reset"}] + c01.gen_vec("ifma", ck.rng, quick)
         kernel += [{"op": "reset"}] + gen_formulas(b, ck.rng, quick)      # (3)
         kernel += [{"op": "reset"}] + gen_sparse_scalars(ck.rng, quick)   # scalar kernels on sparse operands
-        if not quick and b in ("s64", "s32", "v2"):
+        if b in (("s64", "v2") if quick else ("s64", "s32", "v2")):
             kernel += gen_big_msm(ck.rng, 801)                             # radix-2^8 Pippenger in a checked build
         sp = os.path.join(ck.workdir, cid + ".kernel.script.ndjson")
         write_script(sp, kernel)
